@@ -37,7 +37,11 @@ func PadPKCS7(buf []byte, size int) ([]byte, error) {
 	bufLen := len(buf)
 	padLen := size - bufLen%size
 	padding := bytes.Repeat([]byte{byte(padLen)}, padLen)
-	return append(buf, padding...), nil
+	// Pad into a new buffer: appending to buf would write into the caller's array when buf has spare capacity
+	out := make([]byte, bufLen+padLen)
+	copy(out, buf)
+	copy(out[bufLen:], padding)
+	return out, nil
 }
 
 // UnpadPKCS7 removes PKCS#7 from a message.
